@@ -21,6 +21,7 @@ type Env struct {
 	vars  map[string]bound // quantifier variables, results, predicate parameters
 	prm   map[string]bound // function parameters (entry values); shadowed by live local cells
 	now   *State           // the current state, reachable from inside old()/atlock() via now(e)
+	snapPrefix string      // non-empty when evaluating a callee's clauses at a call site
 	local func(name string) (Val, types.Type, bool)
 	pkg   *types.Package
 	depth int
@@ -150,6 +151,9 @@ func (e *Env) eval(x Expr) (Val, types.Type) {
 		if x.Lo != nil {
 			l, lt := e.eval(x.Lo)
 			lo = e.lit(l, lt, tInt)
+		}
+		if lo != "0" {
+			t.S.ixArith = true
 		}
 		hi := fmt.Sprintf("(slen %s)", v.T)
 		if x.Hi != nil {
@@ -331,7 +335,7 @@ func (e *Env) selectField(x *ESelect) (Val, types.Type) {
 				cur = fmt.Sprintf("(select %s %s)", t.get(e.st, ev.Name), t.fieldArrBase(st, fi, cur))
 			} else {
 				sv := t.fieldVar(st, fi)
-				cur = fmt.Sprintf("(select %s %s)", t.get(e.st, sv.Name), cur)
+				cur = sel(t.get(e.st, sv.Name), cur)
 			}
 			cty = f.Type()
 			continue
@@ -555,7 +559,7 @@ func (e *Env) call(x *ECall) (Val, types.Type) {
 	case "atlock", "atunlock":
 		snap := &State{m: map[string]Term{}}
 		for name := range t.vars {
-			snap.m[name] = t.get(e.st, x.Fun+":"+name)
+			snap.m[name] = t.get(e.st, e.snapPrefix+x.Fun+":"+name)
 		}
 		se := e.with(snap)
 		if se.now == nil {
